@@ -90,6 +90,7 @@ class Ctx:
         self.written = {}               # path -> last content written by user code
         self.hooks = {}                 # optional callbacks: 'point'
         self.mask = set()               # rel paths never observed (cache-only directories)
+        self.rets = []                  # (t, key, value) of every successful complex call
         self.npoints = 0
 
     def ap(self, r):
@@ -411,6 +412,8 @@ def call_bf(ctx, fr, s):
         return ['exc', errname(e)]
     if ctx.real:
         peek_after_bf(ctx, target_abs, True, None)
+    with ctx.lock:
+        ctx.rets.append(('bf', os.path.abspath(target_abs), ret))
     if o.get('keep'):
         fr.vals[o['keep']] = ret
     return ['ok', ret]
@@ -473,6 +476,11 @@ def call_sb(ctx, fr, s):
         if not o.get('catch') or isinstance(e, Crash):
             raise
         return ['exc', errname(e)]
+    with ctx.lock:
+        try:
+            ctx.rets.append(('sb', canon([fname, roundtrip(list(sent_args)), roundtrip(sent_kwargs)]), ret))
+        except TypeError:
+            pass
     if o.get('keep'):
         fr.vals[o['keep']] = ret
     return ['ok', ret]
